@@ -152,8 +152,9 @@ class StepOperationExecutor(OperationExecutor[T]):
         ):
             return CheckResult.create_is_ready_to_execute(checkpointed_result)
 
-        # Create START checkpoint if not exists
-        if not checkpointed_result.is_existent():
+        # Create START checkpoint if not exists, or if a retry attempt is READY to run: every attempt
+        # records its own START, so an interrupted at-most-once retry attempt is detected on replay
+        if not checkpointed_result.is_existent() or checkpointed_result.is_ready():
             start_operation: OperationUpdate = OperationUpdate.create_step_start(
                 identifier=self.operation_identifier,
             )
